@@ -367,6 +367,28 @@ func c13(x *mon.Ctx) {
 			add("nested-octet-string", tgt.name+"/"+bad.name, "error", base, withTop(tgt.idx, nest(bad.inner)), nil)
 		}
 	}
+	// TCB elements named by neighbours of the component OIDs (…1.13.1.2.k): the TCB's own OID (one arc short), an arc below a
+	// component's OID (…2.k.1), …2.0 and …2.19, in place of component k or as an extra element: nothing that is present exactly
+	// once may come out wrong (in particular component k does not take the neighbour's value) — and nothing crashes
+	for _, k := range []int{1, 5, 16} {
+		for _, odd := range []struct {
+			name string
+			oid  []byte
+		}{
+			{"tcb-oid-itself", world.OID(2)},
+			{"below-component-oid", world.OID(2, k, 1)},
+			{"component-0", world.OID(2, 0)},
+			{"component-19", world.OID(2, 19)},
+			{"below-pcesvn-oid", world.OID(2, 17, 1)},
+		} {
+			el := world.Seq(odd.oid, world.Int(int64(200+k)))
+			add("tcb-element-neighbouring-oid", fmt.Sprintf("%s/in-place-of-comp%d", odd.name, k), "sane", base, withTcb(k-1, el), func(c *xcase) { c.Skip = map[string]bool{fmt.Sprint("comp", k): true} })
+			extra := append(append([][]byte{}, tcbE...), el)
+			add("tcb-element-neighbouring-oid", fmt.Sprintf("%s/as-19th-element-value-%d", odd.name, 200+k), "sane", base, world.Seq(mkTop(extra)...), nil)
+			first := append([][]byte{el}, tcbE...)
+			add("tcb-element-neighbouring-oid", fmt.Sprintf("%s/as-first-of-19-elements", odd.name), "sane", base, world.Seq(mkTop(first)...), nil)
+		}
+	}
 	for _, pos := range []int{0, 7, 15} {
 		for _, v := range []int64{256, 257, 65535, 1 << 31, -1, -128, -129} {
 			add("component-out-of-range", fmt.Sprintf("comp%d=%d", pos+1, v), "error", base, withTcb(pos, world.Seq(world.OID(2, pos+1), world.Int(v))), nil)
@@ -642,6 +664,7 @@ func c13(x *mon.Ctx) {
 	x.Require("tcb-element-order", 1000, 0, 1000)
 	x.Require("component-out-of-range", 0, 21, 21)
 	x.Require("nested-octet-string", 3, 16, 20)
+	x.Require("tcb-element-neighbouring-oid", 0, 0, 45)
 	x.Require("value-identifier-octet", 0, 1700, 1700)
 	x.Require("platform-certificate-extension", 40, 0, 40)
 	x.Require("platform-certificate-wrong-type", 0, 105, 105)
